@@ -288,6 +288,16 @@ def run(res, tier, seed):
         q = rnd.choice([{'items': ['star']}, {'items': [{'e': ['nf']}]}, {'items': [{'e': ['a', 0]}], 'where': ['ne', ['a', 0], ['lit', 'x']]},
                         {'update': True, 'items': [], 'assigns': [[0, ['lit', 'u']]]}])
         cases.append({'q': q, 'A': A, 'B': None})
+    # JOIN keys: a key cell that EXISTS but holds None is a value (it joins with None keys of B), a key cell that is MISSING is the offending field of
+    # that record — the two must not be confused in the error that names the record and the field
+    for _ in range(600 if tier == 'quick' else 6000):
+        A = qgen.gen_table(rnd, nrows=rnd.randint(1, 5), ncols=2, ragged=0.3, none_p=0.3, pool=['k1', 'k2', 'x'])
+        B = qgen.gen_table(rnd, nrows=rnd.randint(0, 3), ncols=2, ragged=0.0, none_p=0.2, full_cols=0, pool=['k1', 'k2', 'v'])
+        kind = rnd.choice(['inner', 'left', 'strict'])
+        q = rnd.choice([{'items': [{'e': ['a', 0]}, {'e': ['b', 1]}], 'join': {'kind': kind, 'lhs': [1], 'rhs': [0]}},
+                        {'items': ['star'], 'join': {'kind': kind, 'lhs': [0, 1], 'rhs': [0, 1]}},
+                        {'update': True, 'items': [], 'assigns': [[0, ['b', 1]]], 'join': {'kind': 'inner' if kind == 'strict' else kind, 'lhs': [1], 'rhs': [0]}}])
+        cases.append({'q': q, 'A': A, 'B': B})
     for c in cases:
         res.nontrivial.add(json.dumps([c['q'], c['A'], c['B']], sort_keys=True))
     for c in cases[:2] + cases[-2:]:
